@@ -2154,8 +2154,11 @@ namespace gch
         }
       }
 
+      // Note: `std::fill` assigns, so this shortcut is only valid if copy assignment is available
+      //       and equivalent to construction (ie. also trivial).
       template <typename A = alloc_ty, typename V = value_ty,
         typename std::enable_if<is_trivially_constructible<V>::value
+                            &&  is_memcpyable<const V&>::value
                             &&! must_use_alloc_construct<A, V>::value>::type * = nullptr>
       GCH_CPP20_CONSTEXPR
       ptr
@@ -2171,6 +2174,7 @@ namespace gch
 
       template <typename A = alloc_ty, typename V = value_ty,
         typename std::enable_if<! is_trivially_constructible<V>::value
+                              ||! is_memcpyable<const V&>::value
                               ||  must_use_alloc_construct<A, V>::value>::type * = nullptr>
       GCH_CPP20_CONSTEXPR
       ptr
